@@ -15,7 +15,7 @@ VERSIONS = [10, 11, 12, 13, 14, 20]
 USERS = ["alice", "bob", "carol"]
 GROUPSETS = [None] * 14 + [[], ["g1"], ["g2"], ["g1", "g2"], ["g2", "g1"], ["g3"]]
 MASKS = [0, 0x1, 0x2, 0x3, 0x4, 0x8, 0xC, 0x10, 0x80, 0x200, 0x3FF, 0x3FF, 0xFFFFFF, 0xFFFFFF, 0xFFFFFF, 0xFFFFFF,
-         0x3FF, 0xFFFFFF, 0x1000000, 0x20C]
+         0x3FF, 0xFFFFFF, 0x1000000, 0x20C, -1, -5, -0x201]
 ALGS = [3, 4, 2, 1, 8]            # AES, RSA, 3DES, DES, HMAC_SHA1
 NAMES = ["n0", "n1", "n2", "key", "k"]
 GROUPS = ["grpA", "grpB"]
@@ -129,7 +129,7 @@ class Gen(object):
             if name == "Cryptographic Usage Mask":
                 return {"k": "int", "v": self.ch(MASKS)}
             if name == "Cryptographic Length":
-                return {"k": "int", "v": self.ch([128, 128, 256, 64, 0, 192, 2048, 100])}
+                return {"k": "int", "v": self.ch([128, 128, 256, 64, 0, 192, 2048, 100, 128, 256, -8, -128])}
             return {"k": "int", "v": r.randrange(0, 1000)}
         if k == "text":
             if name == "Unique Identifier":
@@ -242,6 +242,10 @@ class Gen(object):
                 if self.p(0.85) else None
             it.update(common=common, priv=kt(), pub=kt())
             x = r.random()
+            lens = [a["value"].get("v") for t in (it["common"], it["priv"], it["pub"]) if t for a in t["attrs"]
+                    if a["name"] == "Cryptographic Length"]
+            if any(isinstance(v, int) and v <= 0 for v in lens):
+                x = 0.92            # no backend produces a key pair of non-positive length
             if x < 0.9:
                 it["crypto"] = {"k": "ok2", "pub": hexof(8, rnd=r), "priv": hexof(12, rnd=r), "pubfmt": 3, "privfmt": 4}
             elif x < 0.95:
@@ -277,6 +281,9 @@ class Gen(object):
                     obj["format"] = self.ch([1, 2, 3, 4, 5, 6])
                 elif ot == 1:
                     obj["subtype"] = 2
+                if ot in (2, 3, 4) and self.p(0.3):
+                    # key block without algorithm / length (optional on the wire)
+                    obj[self.ch(["alg", "len"])] = None
             must = ("Cryptographic Usage Mask",) if ot != 8 else ()
             if ot in (2, 3, 4, 5) and self.p(0.2):
                 must = must + ("Cryptographic Algorithm", "Cryptographic Length")
